@@ -5,10 +5,12 @@
    its three option tables (11 single-valued, 8 one-per-assignment, 3 boolean keys) changes
    the generated ExecStart= by exactly the insertion of [option; value] -- every other argument, before and after, is the same.
    (Proofs/C02run.v: no other handler reads the key; every handler only appends, and what it appends does not depend on what is
-   already there.)  PARTIAL beyond that: the same whole-command frame for the other key kinds and unit types, the special handlers
+   already there.)  The same whole-command frame is proved for the table-driven keys of .image (ExecStart=), .network (ExecStart=)
+   and .pod (ExecStartPre=, the `podman pod create` line) units (Proofs/C02types.v).
+   PARTIAL beyond that: the same whole-command frame for the other key kinds and for .build/.kube/.volume units, the special handlers
    and the position clauses are decided by the direct oracle of tools/props/C02.py on implementation output together with
    whole-service correspondence with the converter model. *)
-From QV Require Import Model.Base Generated.Tables Model.Quote Model.Unquote Model.Unit Model.Names Model.Convert Spec.Docs Proofs.C07 Proofs.C02 Proofs.C02run.
+From QV Require Import Model.Base Generated.Tables Model.Quote Model.Unquote Model.Unit Model.Names Model.Convert Spec.Docs Proofs.C07 Proofs.C02 Proofs.C02run Proofs.C02types.
 
 (* every (key, option) pair of the look-up tables found in the source today is the documented pair of the documented kind *)
 Theorem C02_tables :
@@ -113,3 +115,75 @@ Theorem C02_frame_example :
   exec_of (convert_one (s2l "/usr/bin/podman") (fun _ => false) true false (add_entry demo_unit c_CONTAINER_SECTION (s2l "Timezone") (s2l "UTC")) (s2l "/d/a.container") TContainer demo_tbl)
     = Some [s2l "/usr/bin/podman run --name systemd-%N --cidfile=%t/%N.cid --replace --rm --cgroups split --tz UTC --sdnotify=conmon -d img"].
 Proof. exact frame_example. Qed.
+
+(* ---- the same whole-command frame for the table-driven keys of .image, .network and .pod units ---- *)
+
+Theorem C02_image_string_key_frame : forall podman u k0 flag0 raw c v path tbl svc1 sp1 t1 svc2 sp2 t2,
+  In (k0, flag0) pt_from_image_unit_string_keys -> values_raw u c_IMAGE_SECTION k0 = [] -> unquote_value raw = Some (c :: v) ->
+  from_image podman u path tbl = COk (svc1, sp1, t1) -> from_image podman (add_entry u c_IMAGE_SECTION k0 raw) path tbl = COk (svc2, sp2, t2) ->
+  exists before1 before2 p q,
+    vals svc1 SEC_S (s2l "ExecStart") = before1 ++ [quote_words (p ++ q)] /\
+    vals svc2 SEC_S (s2l "ExecStart") = before2 ++ [quote_words (p ++ [flag0; c :: v] ++ q)].
+Proof. exact image_string_key_frame. Qed.
+
+Theorem C02_image_bool_key_frame : forall podman u k0 flag0 raw b path tbl svc1 sp1 t1 svc2 sp2 t2,
+  In (k0, flag0) pt_from_image_unit_bool_keys -> values_raw u c_IMAGE_SECTION k0 = [] -> raw <> [] -> to_bool raw = Some b ->
+  from_image podman u path tbl = COk (svc1, sp1, t1) -> from_image podman (add_entry u c_IMAGE_SECTION k0 raw) path tbl = COk (svc2, sp2, t2) ->
+  exists before1 before2 p q,
+    vals svc1 SEC_S (s2l "ExecStart") = before1 ++ [quote_words (p ++ q)] /\
+    vals svc2 SEC_S (s2l "ExecStart") = before2 ++ [quote_words (p ++ (if b then [flag0] else [flag0 ++ s2l "=false"]) ++ q)].
+Proof. exact image_bool_key_frame. Qed.
+
+Theorem C02_network_string_key_frame : forall podman u k0 flag0 raw c v path tbl svc1 sp1 t1 svc2 sp2 t2,
+  In (k0, flag0) pt_from_network_unit_string_keys -> values_raw u c_NETWORK_SECTION k0 = [] -> unquote_value raw = Some (c :: v) ->
+  from_network podman u path tbl = COk (svc1, sp1, t1) -> from_network podman (add_entry u c_NETWORK_SECTION k0 raw) path tbl = COk (svc2, sp2, t2) ->
+  exists before1 before2 p q,
+    vals svc1 SEC_S (s2l "ExecStart") = before1 ++ [quote_words (p ++ q)] /\
+    vals svc2 SEC_S (s2l "ExecStart") = before2 ++ [quote_words (p ++ [flag0; c :: v] ++ q)].
+Proof. exact network_string_key_frame. Qed.
+
+Theorem C02_network_bool_key_frame : forall podman u k0 flag0 raw b path tbl svc1 sp1 t1 svc2 sp2 t2,
+  In (k0, flag0) pt_from_network_unit_bool_keys -> values_raw u c_NETWORK_SECTION k0 = [] -> raw <> [] -> to_bool raw = Some b ->
+  from_network podman u path tbl = COk (svc1, sp1, t1) -> from_network podman (add_entry u c_NETWORK_SECTION k0 raw) path tbl = COk (svc2, sp2, t2) ->
+  exists before1 before2 p q,
+    vals svc1 SEC_S (s2l "ExecStart") = before1 ++ [quote_words (p ++ q)] /\
+    vals svc2 SEC_S (s2l "ExecStart") = before2 ++ [quote_words (p ++ (if b then [flag0] else [flag0 ++ s2l "=false"]) ++ q)].
+Proof. exact network_bool_key_frame. Qed.
+
+Theorem C02_network_list_key_frame : forall podman u k0 flag0 raw c v path tbl svc1 sp1 t1 svc2 sp2 t2,
+  In (k0, flag0) pt_from_network_unit_inline0 -> values_raw u c_NETWORK_SECTION k0 = [] -> unquote_value raw = Some (c :: v) ->
+  from_network podman u path tbl = COk (svc1, sp1, t1) -> from_network podman (add_entry u c_NETWORK_SECTION k0 raw) path tbl = COk (svc2, sp2, t2) ->
+  exists before1 before2 p q,
+    vals svc1 SEC_S (s2l "ExecStart") = before1 ++ [quote_words (p ++ q)] /\
+    vals svc2 SEC_S (s2l "ExecStart") = before2 ++ [quote_words (p ++ [flag0; c :: v] ++ q)].
+Proof. exact network_list_key_frame. Qed.
+
+Theorem C02_pod_string_key_frame : forall podman mount_nl u k0 flag0 raw c v path tbl svc1 sp1 t1 svc2 sp2 t2,
+  In (k0, flag0) pt_from_pod_unit_string_keys -> values_raw u c_POD_SECTION k0 = [] -> unquote_value raw = Some (c :: v) ->
+  from_pod podman mount_nl u path tbl = COk (svc1, sp1, t1) -> from_pod podman mount_nl (add_entry u c_POD_SECTION k0 raw) path tbl = COk (svc2, sp2, t2) ->
+  exists before1 before2 p q,
+    vals svc1 SEC_S (s2l "ExecStartPre") = before1 ++ [quote_words (p ++ q)] /\
+    vals svc2 SEC_S (s2l "ExecStartPre") = before2 ++ [quote_words (p ++ [flag0; c :: v] ++ q)].
+Proof. exact pod_string_key_frame. Qed.
+
+Theorem C02_pod_list_key_frame : forall podman mount_nl u k0 flag0 raw c v path tbl svc1 sp1 t1 svc2 sp2 t2,
+  In (k0, flag0) pt_from_pod_unit_all_string_keys -> values_raw u c_POD_SECTION k0 = [] -> unquote_value raw = Some (c :: v) ->
+  from_pod podman mount_nl u path tbl = COk (svc1, sp1, t1) -> from_pod podman mount_nl (add_entry u c_POD_SECTION k0 raw) path tbl = COk (svc2, sp2, t2) ->
+  exists before1 before2 p q,
+    vals svc1 SEC_S (s2l "ExecStartPre") = before1 ++ [quote_words (p ++ q)] /\
+    vals svc2 SEC_S (s2l "ExecStartPre") = before2 ++ [quote_words (p ++ [flag0; c :: v] ++ q)].
+Proof. exact pod_list_key_frame. Qed.
+
+Theorem C02_pod_frame_example :
+  pre_of (convert_one (s2l "/usr/bin/podman") (fun _ => false) true false pod_unit (s2l "/d/a.pod") TPod pod_tbl)
+    = Some [s2l "/usr/bin/podman pod create --infra-conmon-pidfile=%t/%N.pid --pod-id-file=%t/%N.pod-id --exit-policy=stop --replace --infra-name p-infra --name p"] /\
+  pre_of (convert_one (s2l "/usr/bin/podman") (fun _ => false) true false (add_entry pod_unit c_POD_SECTION (s2l "IP") (s2l "10.0.0.1")) (s2l "/d/a.pod") TPod pod_tbl)
+    = Some [s2l "/usr/bin/podman pod create --infra-conmon-pidfile=%t/%N.pid --pod-id-file=%t/%N.pod-id --exit-policy=stop --replace --ip 10.0.0.1 --infra-name p-infra --name p"].
+Proof. exact pod_frame_example. Qed.
+
+Theorem C02_network_frame_example :
+  exec_of (convert_one (s2l "/usr/bin/podman") (fun _ => false) true false net_unit (s2l "/d/a.network") TNetwork net_tbl)
+    = Some [s2l "/usr/bin/podman network create --ignore --label a=b systemd-a"] /\
+  exec_of (convert_one (s2l "/usr/bin/podman") (fun _ => false) true false (add_entry net_unit c_NETWORK_SECTION (s2l "Internal") (s2l "yes")) (s2l "/d/a.network") TNetwork net_tbl)
+    = Some [s2l "/usr/bin/podman network create --ignore --internal --label a=b systemd-a"].
+Proof. exact network_frame_example. Qed.
